@@ -9,7 +9,7 @@ LEVEL = "model_checking"
 def check(run):
     import mc
     mc.client_mc(run, "C10")
-    scripts = F.incoming(run.seed, run.tier)
+    scripts = B.multi(F.incoming, run.seed, run.tier, 5)
     nacc, rejected, events, final = B.check_family(run, "C10", scripts, "c10", kind="client")
     run.add(distinct_nontrivial=len({lib.digest([s["steps"], s["config"]]) for s in scripts}),
             samples=[{"script": scripts[0]}, {"trace_head": B.sample_trace(events, scripts[0]["id"])}],
